@@ -5,6 +5,10 @@ import (
 	"fmt"
 	"sync"
 
+	"github.com/libsv/go-bt/v2"
+	"github.com/libsv/go-bt/v2/bscript/interpreter"
+	"github.com/libsv/go-bt/v2/bscript/interpreter/scriptflag"
+
 	"verif/internal/ref/scriptref"
 	"verif/internal/rep"
 )
@@ -72,12 +76,13 @@ func c05Check(c scriptCase) []rep.Finding { return lockstep(c, nil).fs }
 
 func init() {
 	p := register(&Prop{ID: "C05", Level: "model_checking",
-		Rule: "explicit-state exploration of the real interpreter in lockstep with a reference model of the BSV script rules (certified on all 1438 node vectors of script_tests.json, verdict and error name): after every instruction the AfterStep snapshot (data and alt stack) must equal the reference's, and the final verdict must agree. Spaces: (1) operand grid: every opcode byte 0x00..0xff x every tuple of edge operands (arity 1 and 2 over the full edge set, arity 3 over a 12-value subset; shift counts 0..8n+1 for operand lengths 0..3) x both eras x covering flag sets, and all 512 subsets of the nine non-signature flags for the flag-sensitive opcodes, CLTV/CSV against 7x3 transaction contexts; (2) every byte string of length<=2 (quick) / <=3 (thorough) as locking script x 4 seed unlocking scripts x 2 eras (+MINIMALDATA); (3) breadth-first program exploration with canonical-state deduplication over a 15-symbol control-flow alphabet (incl. a non-minimal push) (depth 7/8) and a 51-symbol mixed alphabet (stack, alt, splice, bitwise, shift, arithmetic, hash opcodes, 8 pushes) (depth 3/4) from empty and seeded stacks; (3b) the same search on the unlocking side (control-flow alphabet + alt-stack, DUP, CODESEPARATOR; depth 4/5) against 7 fixed locking scripts, deciding what may cross the script boundary; (4) P2SH / limit templates. Scripts whose execution reaches a signature opcode are left to C06. states = distinct canonical machine states (stacks, condition stack, era+flags) seen in snapshots; transitions = instructions executed in lockstep; traces = executions compared",
+		Rule: "explicit-state exploration of the real interpreter in lockstep with a reference model of the BSV script rules (certified on all 1438 node vectors of script_tests.json, verdict and error name): after every instruction the AfterStep snapshot (data and alt stack) must equal the reference's, and the final verdict must agree. Spaces: (1) operand grid: every opcode byte 0x00..0xff x every tuple of edge operands (arity 1 and 2 over the full edge set, arity 3 over a 12-value subset; shift counts 0..8n+1 for operand lengths 0..3) x both eras x covering flag sets, and all 512 subsets of the nine non-signature flags for the flag-sensitive opcodes, CLTV/CSV against 7x3 transaction contexts; (2) every byte string of length<=2 (quick) / <=3 (thorough) as locking script x 4 seed unlocking scripts x 2 eras (+MINIMALDATA); (3) breadth-first program exploration with canonical-state deduplication over a 15-symbol control-flow alphabet (incl. a non-minimal push) (depth 7/8) and a 51-symbol mixed alphabet (stack, alt, splice, bitwise, shift, arithmetic, hash opcodes, 8 pushes) (depth 3/4) from empty and seeded stacks; (3b) the same search on the unlocking side (control-flow alphabet + alt-stack, DUP, CODESEPARATOR; depth 4/5) against 7 fixed locking scripts, deciding what may cross the script boundary; (4) P2SH / limit templates; (5) option forms: ~3,800 cases (every opcode, P2SH spends, OP_RETURN/ELSE/big-number programs x 7 flag words) each requested through 6 equivalent option lists (WithAfterGenesis/WithForkID/WithP2SH before or after WithFlags(rest), the flag word split over two WithFlags calls, overlapping, followed by WithFlags(0), WithFlags before WithTx): verdict equals the reference's for the flag word. Scripts whose execution reaches a signature opcode are left to C06. states = distinct canonical machine states (stacks, condition stack, era+flags) seen in snapshots; transitions = instructions executed in lockstep; traces = executions compared",
 	})
 	NewSpace(p, "grid", c05Check)
 	NewSpace(p, "bytes", c05Check)
 	NewSpace(p, "bfs", c05Check)
 	NewSpace(p, "templates", c05Check)
+	spOpt := NewSpace(p, "options", c05OptCheck)
 	p.Run = func(r *rep.Run, thorough bool) {
 		n, err := scriptref.Anchor(vectorsDir() + "/script_tests.json")
 		if err != nil {
@@ -111,6 +116,7 @@ func init() {
 		c05BFS(r, p, chk, thorough)
 		c05UnlockBFS(r, p, chk, thorough)
 		c05Templates(r, p, chk, thorough)
+		c05Options(r, spOpt, thorough)
 		r.Note("states", r.DistinctCount())
 		r.Note("transitions", st.transitions)
 		r.Note("traces_validated_against_impl", st.traces)
@@ -485,4 +491,99 @@ func c05UnlockBFS(r *rep.Run, p *Prop, chk func(scriptCase) []rep.Finding, thoro
 	}
 	r.Note("unlock_side_bfs_states", states)
 	r.Note("unlock_side_bfs_transitions", trans)
+}
+
+// c05OptCase: the same execution requested through a different but equivalent list of options.
+type c05OptCase struct {
+	scriptCase
+	// Form: 1 dedicated flag options (WithAfterGenesis/WithForkID/WithP2SH) first, the remaining
+	// flags through WithFlags; 2 the same in the opposite order; 3 the flag word split over two
+	// WithFlags calls; 4 dedicated options and the whole word; 5 the whole word then WithFlags(0);
+	// 6 WithFlags before WithTx
+	Form int `json:"option_form"`
+}
+
+func c05OptCheck(c c05OptCase) (fs []rep.Finding) {
+	rt, amount := c.ctx()
+	ref := scriptref.Verify(c.Unlock, c.Lock, c.Flags, &scriptref.TxCtx{Tx: rt, Idx: c.idx(), Amount: amount}, nil, false)
+	if ref.UsedSig || ref.TooBig {
+		return nil
+	}
+	tx := toLib(rt)
+	ix := c.idx()
+	prev := &bt.Output{Satoshis: amount, LockingScript: libScript(c.Lock)}
+	F := scriptflag.Flag(c.Flags)
+	var ded []interpreter.ExecutionOptionFunc
+	rest := F
+	if F.HasFlag(scriptflag.UTXOAfterGenesis) {
+		ded = append(ded, interpreter.WithAfterGenesis())
+		rest &^= scriptflag.UTXOAfterGenesis
+	}
+	if F.HasFlag(scriptflag.EnableSighashForkID) {
+		ded = append(ded, interpreter.WithForkID())
+		rest &^= scriptflag.EnableSighashForkID
+	}
+	if F.HasFlag(scriptflag.Bip16) {
+		ded = append(ded, interpreter.WithP2SH())
+		rest &^= scriptflag.Bip16
+	}
+	withTx := interpreter.WithTx(tx, ix, prev)
+	var opts []interpreter.ExecutionOptionFunc
+	switch c.Form {
+	case 1:
+		opts = append(append([]interpreter.ExecutionOptionFunc{withTx}, ded...), interpreter.WithFlags(rest))
+	case 2:
+		opts = append([]interpreter.ExecutionOptionFunc{withTx, interpreter.WithFlags(rest)}, ded...)
+	case 3:
+		opts = []interpreter.ExecutionOptionFunc{withTx, interpreter.WithFlags(F & 0xaaaaaaaa), interpreter.WithFlags(F & 0x55555555)}
+	case 4:
+		opts = append(append([]interpreter.ExecutionOptionFunc{withTx}, ded...), interpreter.WithFlags(F))
+	case 5:
+		opts = []interpreter.ExecutionOptionFunc{withTx, interpreter.WithFlags(F), interpreter.WithFlags(0)}
+	default:
+		opts = []interpreter.ExecutionOptionFunc{interpreter.WithFlags(F), withTx}
+	}
+	err := interpreter.NewEngine().Execute(opts...)
+	if (err == nil) != ref.OK {
+		fs = append(fs, rep.F(fmt.Sprintf("options|form=%d|%s", c.Form, era(c.Flags)),
+			fmt.Sprintf("requested through option form %d the verdict is %s, the BSV rules for flag word %#x give ok=%v (%s)", c.Form, errText(err), c.Flags, ref.OK, ref.Err)))
+	}
+	return
+}
+
+func c05Options(r *rep.Run, sp *Space[c05OptCase], thorough bool) {
+	var base []scriptCase
+	flagSets := []uint32{fGenesis, fGenesis | fMinData | fMinIf, fP2SH | fClean, fP2SH, scriptref.ForkID | fGenesis, scriptref.ForkID | fP2SH | fClean | fNops, fGenesis | fP2SH | fClean}
+	for op := 0; op < 256; op++ {
+		lock := lockFor(byte(op))
+		for _, f := range flagSets {
+			base = append(base, scriptCase{Unlock: pushAll([]byte{0x02}, []byte{0x01}), Lock: lock, Flags: f})
+			base = append(base, scriptCase{Unlock: pushAll(fill(5, 0x11), []byte{0x03}, []byte{}), Lock: append(append([]byte{0x63}, lock...), 0x67, 0x51, 0x68), Flags: f})
+		}
+	}
+	for _, rd := range [][]byte{{0x51}, {0x00}, {0x76, 0x87}, {0x6a}, {0x51, 0x6b}} {
+		lock := append(append([]byte{0xa9, 0x14}, refHash160(rd)...), 0x87)
+		for _, f := range flagSets {
+			for _, pre := range [][]byte{nil, {0x51}, {0x51, 0x61}} {
+				base = append(base, scriptCase{Unlock: append(append([]byte(nil), pre...), minimalPush(rd)...), Lock: lock, Flags: f})
+			}
+		}
+	}
+	for _, f := range flagSets {
+		base = append(base,
+			scriptCase{Unlock: []byte{0x51, 0x6a}, Lock: []byte{0x00}, Flags: f},
+			scriptCase{Unlock: []byte{0x51}, Lock: []byte{0x51, 0x6a, 0x05}, Flags: f},
+			scriptCase{Unlock: []byte{0x51}, Lock: []byte{0x63, 0x51, 0x67, 0x51, 0x67, 0x51, 0x68}, Flags: f},
+			scriptCase{Unlock: pushAll(bytes.Repeat([]byte{0xff}, 6), []byte{0x01}), Lock: []byte{0x93, 0x75, 0x51}, Flags: f},
+			scriptCase{Unlock: []byte{0x51, 0x51}, Lock: []byte{0x51}, Flags: f},
+		)
+	}
+	var cases []c05OptCase
+	for _, b := range base {
+		for form := 1; form <= 6; form++ {
+			cases = append(cases, c05OptCase{b, form})
+		}
+	}
+	sp.Slice(r, cases)
+	r.Note("option_form_cases", len(cases))
 }
